@@ -18,7 +18,10 @@
 
 /* ---- file system stand-in */
 static unsigned int nsys;		/* system calls so far */
-static int fs_fault = -1, fs_how;
+#if !defined FAULTMAX
+# define FAULTMAX 12
+#endif
+static int fs_fault = -1, fs_how, fs_only_write;
 static int cur_fd = -1;
 static char cur_name[32];
 static long long handed, accepted;	/* bytes the writer handed in / the kernel took */
@@ -27,6 +30,8 @@ static int live_torn;			/* an incomplete file was installed */
 static unsigned int ninstalled, nunlinked, nopened;
 
 static int faulty(void) { return (int)nsys++ == fs_fault; }
+/* calls other than write(): never the failing one in the confirmer of C06-1 */
+static int faulty_nw(void) { const int f = faulty(); return f && !fs_only_write; }
 
 int snprintf(char *buf, size_t z, const char *fmt, ...)
 {
@@ -49,17 +54,23 @@ int snprintf(char *buf, size_t z, const char *fmt, ...)
 }
 
 #if defined VERIF_CBMC
-/* only the byte counts of the formatted output matter here: an arbitrary count of 0..24 bytes
- * per call (CBMC's own vsnprintf model writes nondeterministic characters in a loop) */
-int nondet_int(void);
+/* only the byte counts of the formatted output matter here.  A symbolic count per call makes the
+ * buffer index a chain of ~130 conditional updates that cbmc's simplifier does not get through;
+ * the count is a constant per obligation (-DVSN=<n>: where the flushes fall differs with it), the
+ * failing system call stays symbolic */
+#if !defined VSN
+# define VSN 8
+#endif
 int vsnprintf(char *buf, size_t z, const char *fmt, va_list ap)
 {
 	(void)fmt; (void)ap;
-	int n = nondet_int();
-	__CPROVER_assume(n >= 0 && n <= 24);
 	if (z) buf[0] = '\0';
-	return n;
+	return VSN;
 }
+/* likewise the other producers of text whose length reaches the writer: constant lengths */
+const char *obint_name(obint_t x) { (void)x; return "someone"; }
+size_t dt_strf_ical(char *restrict buf, size_t bsz, echs_instant_t i) { (void)buf; (void)bsz; (void)i; return 16U; }
+size_t idiff_strf(char *restrict buf, size_t bsz, echs_idiff_t d) { (void)buf; (void)bsz; (void)d; return 8U; }
 #endif
 
 #if defined VERIF_CBMC
@@ -77,7 +88,7 @@ int openat(int dfd, const char *fn, int fl, ...)
 {
 	(void)dfd;
 	CHECK((fl & O_ACCMODE) == O_RDONLY || fn[0] == '.', "the live queue file is never opened for writing");
-	if (faulty()) return -1;
+	if (faulty_nw()) return -1;
 	nopened++;
 	cur_fd = 50 + (int)nopened;
 	for (unsigned k = 0; k < 16U; k++) cur_name[k] = fn[k];
@@ -108,7 +119,7 @@ ssize_t write(int fd, const void *buf, size_t n)
 int close(int fd)
 {
 	if (fd != cur_fd) return 0;
-	if (faulty()) {
+	if (faulty_nw()) {
 		io_failed = 1;
 		return -1;
 	}
@@ -119,7 +130,7 @@ int renameat(int od, const char *o, int nd, const char *n)
 {
 	(void)od; (void)nd;
 	CHECK(n == o + 1 && o[0] == '.', "only the dot-file is renamed, onto the live name");
-	if (faulty()) return -1;
+	if (faulty_nw()) return -1;
 	/* the live file now has the dot-file's content */
 	ninstalled++;
 	if (io_failed || accepted != handed) live_torn = 1;
@@ -137,8 +148,16 @@ void harness(void)
 {
 	sym_load();
 	ENV_INIT();
+#if defined CFG_NTASK
+	/* the queue configuration is a constant of the obligation (a symbolic number of tasks makes
+	 * the writer's buffer index symbolic after the first join); the failing call stays symbolic */
+	in.ntask = CFG_NTASK, in.own0 = CFG_OWN0, in.own1 = CFG_OWN1, in.dirty = 1;
+#endif
 	ASSUME(in.ntask >= 0 && in.ntask <= 2 && in.own0 >= 1 && in.own0 <= 2 && in.own1 >= 1 && in.own1 <= 2 && in.dirty >= 1 && in.dirty <= 2);
-	ASSUME(in.fault >= -1 && in.fault < 12 && (in.how == 0 || in.how == 1));
+	ASSUME(in.fault >= -1 && in.fault < FAULTMAX && (in.how == 0 || in.how == 1));
+#if defined KFONLY_C06_1
+	fs_only_write = 1;
+#endif
 	fs_fault = (int)in.fault, fs_how = (int)in.how;
 	T0.oid = 3U, T0.owner = nummapstr_bang_num((unsigned)in.own0), T0.umsk = 01000, T0.max_simul = 63, T0.run_as.u = NUMMAPSTR_NAN, T0.run_as.g = NUMMAPSTR_NAN;
 	T1.oid = 6U, T1.owner = nummapstr_bang_num((unsigned)in.own1), T1.umsk = 01000, T1.max_simul = 63, T1.run_as.u = NUMMAPSTR_NAN, T1.run_as.g = NUMMAPSTR_NAN;
